@@ -103,6 +103,9 @@ def _discharge_chunk(obs, quick_ms=300, cli_timeout_s=20, all_solvers=False, see
             sliced = tm.cone(list(ob.pc), [neg], getattr(ob, 'defs', None)) + [neg]
         else:
             sliced = list(ob.pc) + [neg]      # "this path is infeasible": the whole path condition matters
+        if any(a.op == "forall" for a in sliced[:-1]):
+            extra = [x for x in tm.index_instances(sliced[:-1], neg) if x not in sliced]
+            sliced = sliced[:-1] + extra + [neg]
         key = frozenset(sliced)
         if key in seen and not _nodedupe:
             dup.append((ob, seen[key]))
